@@ -134,6 +134,9 @@ func newSpan(min *Version, minOpen bool, max *Version, maxOpen bool) (span, erro
 	min.build = ""
 	max.build = ""
 	switch {
+	case min.equal(max) && (minOpen || maxOpen):
+		// [a,a), (a,a] and (a,a) hold no version.
+		return span{}, nil
 	case min.equal(max):
 		return span{
 			minOpen: minOpen,
